@@ -76,23 +76,45 @@ func fnBetween(args []object.Object) object.Object {
 	max := args[2]
 
 	// val < min?
-	lower := fnMin([]object.Object{val, min})
-	if lower == val {
-
-		if val.Inspect() != min.Inspect() {
-			return &object.Boolean{Value: false}
-		}
+	if numericLess(val, min) {
+		return &object.Boolean{Value: false}
 	}
 
 	// val > max
-	upper := fnMax([]object.Object{val, max})
-	if upper == val {
-		if val.Inspect() != max.Inspect() {
-			return &object.Boolean{Value: false}
-		}
+	if numericLess(max, val) {
+		return &object.Boolean{Value: false}
 	}
 
 	return &object.Boolean{Value: true}
+}
+
+// isNumber reports whether the given object is an integer or a float.
+func isNumber(obj object.Object) bool {
+	return obj.Type() == object.INTEGER || obj.Type() == object.FLOAT
+}
+
+// numericLess reports whether the number a is smaller than the number b.
+//
+// Two integers are compared as integers, anything else as floating-point
+// numbers - just as the "<" operator does.
+func numericLess(a object.Object, b object.Object) bool {
+	ai, aInt := a.(*object.Integer)
+	bi, bInt := b.(*object.Integer)
+	if aInt && bInt {
+		return ai.Value < bi.Value
+	}
+	return numericValue(a) < numericValue(b)
+}
+
+// numericValue returns the value of an integer or float object as a float.
+func numericValue(obj object.Object) float64 {
+	switch v := obj.(type) {
+	case *object.Integer:
+		return float64(v.Value)
+	case *object.Float:
+		return v.Value
+	}
+	return 0
 }
 
 // fnFloat is the implementation of the `float` function.
@@ -312,6 +334,15 @@ func fnMax(args []object.Object) object.Object {
 		return &object.Null{}
 	}
 
+	// Numbers are compared as numbers - sorting them, as we do
+	// below, would compare their printed forms: "10" < "2".
+	if isNumber(args[0]) && isNumber(args[1]) {
+		if numericLess(args[0], args[1]) {
+			return args[1]
+		}
+		return args[0]
+	}
+
 	// Create an array.  Yeah.
 	elements := make([]object.Object, 2)
 	elements[0] = args[0]
@@ -334,6 +365,15 @@ func fnMin(args []object.Object) object.Object {
 	// We expect two arguments
 	if len(args) != 2 {
 		return &object.Null{}
+	}
+
+	// Numbers are compared as numbers - sorting them, as we do
+	// below, would compare their printed forms: "10" < "2".
+	if isNumber(args[0]) && isNumber(args[1]) {
+		if numericLess(args[1], args[0]) {
+			return args[1]
+		}
+		return args[0]
 	}
 
 	// Create an array.  Yeah.
